@@ -264,3 +264,166 @@ def gen_series_calls():
 
 
 GENERATORS = [gen_series_calls]
+
+
+# ------------------------------------------------------------------ Fs bindings: what reaches the algorithm layer as sampling rate
+FS_FILES = ['nitime/analysis/spectral.py', 'nitime/analysis/coherence.py', 'nitime/analysis/snr.py',
+            'nitime/analysis/granger.py', 'nitime/analysis/correlation.py', 'nitime/analysis/event_related.py',
+            'nitime/analysis/normalization.py']
+
+
+def _is_self_attr(node, name=None):
+    return isinstance(node, ast.Attribute) and isinstance(node.value, ast.Name) and node.value.id == 'self' and \
+        (name is None or node.attr == name)
+
+
+def _const_fs(node):
+    return isinstance(node, ast.Constant) and node.value == 'Fs'
+
+
+def _dict_bindings(cls, attr, seen=()):
+    """all expressions stored under key 'Fs' of the dict `self.<attr>` anywhere in the class (following
+    `self.<a> = self.<b>` aliases); None when the dict can also be a caller's object without an 'Fs' write"""
+    out = []
+    for fn in [n for n in cls.body if isinstance(n, ast.FunctionDef)]:
+        for node in ast.walk(fn):
+            if isinstance(node, ast.Assign) and len(node.targets) == 1:
+                t, v = node.targets[0], node.value
+                if isinstance(t, ast.Subscript) and _is_self_attr(t.value, attr) and _const_fs(t.slice):
+                    out.append((fn, v))
+                elif _is_self_attr(t, attr):
+                    if isinstance(v, ast.Dict):
+                        for k, e in zip(v.keys, v.values):
+                            if _const_fs(k):
+                                out.append((fn, e))
+                    elif _is_self_attr(v) and v.attr not in seen and v.attr != attr:
+                        out += _dict_bindings(cls, v.attr, seen + (attr,))
+    return out
+
+
+def classify_fs(node, ctx, cls, depth=0):
+    """-> ('inputRate'|'userOrInput'|'other', text)"""
+    txt = src_text(node)
+    if depth > 6:
+        return 'other', txt
+    fn = ctx.fn
+    # X.get('Fs', default) / X.get('Fs') / X['Fs'] on a dict attribute of self
+    if isinstance(node, ast.Call) and isinstance(node.func, ast.Attribute) and node.func.attr == 'get' and node.args and _const_fs(node.args[0]):
+        base = node.func.value
+        if len(node.args) == 2:
+            k, _ = classify_fs(node.args[1], ctx, cls, depth + 1)
+            return ('userOrInput' if k in ('inputRate', 'userOrInput') else 'other'), txt
+        if _is_self_attr(base) and cls is not None:
+            return classify_dict(cls, base.attr, depth), txt
+        return 'other', txt
+    if isinstance(node, ast.Subscript) and _const_fs(node.slice) and _is_self_attr(node.value) and cls is not None:
+        return classify_dict(cls, node.value.attr, depth), txt
+    if isinstance(node, ast.Name):
+        defs = ctx.local_assigns(node.id, fn)
+        if defs:
+            ks = {classify_fs(d, ctx, cls, depth + 1)[0] for d in defs}
+            return (ks.pop() if len(ks) == 1 else ('userOrInput' if ks <= {'inputRate', 'userOrInput'} else 'other')), txt
+        return 'other', txt
+    if isinstance(node, ast.Attribute) and node.attr == 'sampling_rate':
+        kind, _ = resolve(node, ctx)
+        return ('inputRate' if kind == ('field', 'rate') else 'other'), txt
+    return 'other', txt
+
+
+def classify_dict(cls, attr, depth=0):
+    bs = _dict_bindings(cls, attr)
+    if not bs:
+        return 'other'
+    ks = set()
+    for fn, e in bs:
+        ks.add(classify_fs(e, Ctx(fn, cls), cls, depth + 1)[0])
+    if ks <= {'inputRate'}:
+        return 'inputRate'
+    return 'userOrInput' if ks <= {'inputRate', 'userOrInput'} else 'other'
+
+
+def collect_fs(tree, path):
+    rows = []
+
+    def visit_fn(fn, cls):
+        ctx = Ctx(fn, cls)
+        found = []
+        alias_rhs = set()
+        for node in ast.walk(fn):
+            if isinstance(node, ast.Assign) and len(node.targets) == 1:
+                t = node.targets[0]
+                # plain aliases (Fs = x.sampling_rate ; self.sampling_rate = ts.sampling_rate) are resolved at their uses
+                if isinstance(t, ast.Name) or _is_self_attr(t):
+                    if isinstance(node.value, ast.Attribute) and node.value.attr == 'sampling_rate':
+                        alias_rhs.add(id(node.value))
+        series_kw = set()
+        for node in ast.walk(fn):
+            if is_series_call(node):
+                for k in node.keywords:
+                    for sub in ast.walk(k.value):
+                        series_kw.add(id(sub))
+        for node in ast.walk(fn):
+            if isinstance(node, ast.Call) and not is_series_call(node):
+                for k in node.keywords:
+                    if k.arg in ('Fs', 'sampling_rate'):
+                        found.append(('kw:%s(%s=)' % (src_text(node.func), k.arg), k.value))
+                    if k.arg in ('method', 'csd_method') and _is_self_attr(k.value) and cls is not None:
+                        found.append(('dict:%s(%s=self.%s)' % (src_text(node.func), k.arg, k.value.attr),
+                                      ast.Subscript(value=k.value, slice=ast.Constant('Fs'), ctx=ast.Load())))
+                if isinstance(node.func, ast.Attribute) and node.func.attr == 'get_freqs' and node.args:
+                    found.append(('arg0:%s' % src_text(node.func), node.args[0]))
+            if isinstance(node, ast.Dict):
+                for k, e in zip(node.keys, node.values):
+                    if _const_fs(k):
+                        found.append(("entry:{'Fs': …}", e))
+            if isinstance(node, ast.Assign) and len(node.targets) == 1 and isinstance(node.targets[0], ast.Subscript) \
+                    and _const_fs(node.targets[0].slice):
+                found.append(("store:%s['Fs']" % src_text(node.targets[0].value), node.value))
+        seen_expr = {id(e) for _, e in found}
+        for _, e in list(found):
+            for sub in ast.walk(e):
+                seen_expr.add(id(sub))
+        # any other arithmetic / call use of a rate: `x / (self.sampling_rate / 2.)`, `np.linspace(0, rate / 2, …)`
+        for node in ast.walk(fn):
+            if isinstance(node, ast.Attribute) and node.attr == 'sampling_rate' and isinstance(node.ctx, ast.Load) \
+                    and id(node) not in alias_rhs and id(node) not in series_kw and id(node) not in seen_expr:
+                found.append(('use:%s' % src_text(node), node))
+            if isinstance(node, ast.Name) and isinstance(node.ctx, ast.Load) and node.id in ('Fs', 'sampling_rate') \
+                    and id(node) not in series_kw and id(node) not in seen_expr:
+                found.append(('use:%s' % node.id, node))
+        found.sort(key=lambda f: (getattr(f[1], 'lineno', 0), getattr(f[1], 'col_offset', 0), f[0]))
+        for i, (how, e) in enumerate(found):
+            kind, txt = classify_fs(e, ctx, cls)
+            name = (cls.name + '.' if cls is not None else '') + fn.name + '.%d' % i
+            rows.append((name, how, kind, '%s:%d %s' % (path, getattr(e, 'lineno', fn.lineno), txt)))
+
+    for node in tree.body:
+        if isinstance(node, ast.ClassDef):
+            for sub in node.body:
+                if isinstance(sub, ast.FunctionDef):
+                    visit_fn(sub, node)
+        elif isinstance(node, ast.FunctionDef):
+            visit_fn(node, None)
+    return rows
+
+
+def gen_fs_bindings():
+    rows = []
+    for p in FS_FILES:
+        if os.path.exists(os.path.join(tr.REPO, p)):
+            rows += collect_fs(tr.parse(p), p)
+    lines = ['-- GENERATED by harness/translate_c15.py: every place an analyzer hands a sampling rate to the algorithm layer. DO NOT EDIT.',
+             'import Nitime.Model.C15Types', 'namespace Nitime.Generated.FsBindings', 'open Nitime.C15', '',
+             'def all : List FsBinding :=', '  [']
+    body = []
+    echo = {}
+    for key, how, kind, note in rows:
+        body.append('   -- %s\n   { key := "%s", how := "%s", src := .%s }' % (
+            note.replace('\n', ' ')[:160], key, how.replace('"', "'").replace('\\', '/').replace('\n', ' ')[:80], kind))
+        echo[key] = '%s <- %s' % (how, kind)
+    lines.append(',\n'.join(body))
+    lines += ['  ]', '', 'end Nitime.Generated.FsBindings', '']
+    return 'FsBindings.lean', '\n'.join(lines), echo
+
+
+GENERATORS.append(gen_fs_bindings)
